@@ -344,7 +344,12 @@ def vk_run(res, scn, src, rd, bounds, total, deadline, family, opts=(), workers=
     res.parse_harness_output(out, family)
     for i in range(before, len(res.fails)):
         k, t, b = res.fails[i]
-        res.fails[i] = (k, t, "vk-scenario=%s\nvk-bounds=%s total=%d\n%s" % (scn, bounds, total, body))
+        mc = re.search(r"\[choices ([0-9: ]*)\]", t)
+        b = body
+        if mc and ("key=" + k) not in body:
+            # a violation after which the execution went on (no replay file of its own): options + choice vector replay it
+            b = "options=%s\nchoices=%s\n" % (" ".join(opts), mc.group(1).strip())
+        res.fails[i] = (k, t, "vk-scenario=%s\nvk-bounds=%s total=%d\n%s" % (scn, bounds, total, b))
     return out
 
 
